@@ -24,6 +24,7 @@
 #include <stdio.h>
 #include <stdlib.h>
 #include "vnacal_internal.h"
+#include "libvna_verif.h"
 
 
 #define EPS	1.0e-25
@@ -86,14 +87,29 @@ double complex _vnacal_rfi(const double *xp, double complex *yp,
      * if any segment does.
      */
     if (x < xp[segment]) {
-	while (segment > 0 && x < xp[segment]) {
+	while (segment > 0 && x < xp[segment])
+	VERIF_LOOP_CONTRACT((segment),
+		0 <= segment && segment <= n - 2 &&
+		(segment == __CPROVER_loop_entry(segment) ||
+		 x < xp[segment + 1]),
+		segment)
+	{
 	    --segment;
 	}
     } else {
-	while (segment < n - 2 && x > xp[segment + 1]) {
+	while (segment < n - 2 && x > xp[segment + 1])
+	VERIF_LOOP_CONTRACT((segment),
+		0 <= segment && segment <= n - 2 && !(x < xp[segment]),
+		n - 2 - segment)
+	{
 	    ++segment;
 	}
     }
+    VERIF_GHOST_ASSERT(0 <= segment && segment <= n - 2,
+	    "rfi: segment and segment + 1 are in bounds after the search");
+    VERIF_GHOST_ASSERT(!(xp[0] <= x && x <= xp[n - 1]) ||
+	    (!(x < xp[segment]) && !(x > xp[segment + 1])),
+	    "rfi: the segment found brackets x whenever x is in range");
 
     /*
      * If x is equal to one of the bounds, return the associated y.
@@ -116,6 +132,7 @@ double complex _vnacal_rfi(const double *xp, double complex *yp,
 	    nearest = segment + 1;
 	}
     }
+    VERIF_CUT(rfi_after_search);
 
     /*
      * Find the base index of the m-wide window best centered around x.
